@@ -25,9 +25,11 @@ def chunks(lst, n):
 
 
 def bounded_jobs(exe, itypes, caps, percents, presets, maxlen, per_proc=200, deadline=600):
+    """caps: a power of two, or a pair (requested capacity, the power of two it must round up to)"""
     jobs = []
     for it in itypes:
-        for cap in caps:
+        for capspec in caps:
+            cap, rawcap = (capspec[1], capspec[0]) if isinstance(capspec, tuple) else (capspec, 0)
             sizes = sorted(set([1, max(1, cap // 4), cap // 2, cap - 1, cap, cap + 1]))
             ss = seqs(["w%d" % s for s in sizes], maxlen)
             # a batching producer (b = finished, committed later): nothing is visible before its commit, also after a refused
@@ -37,7 +39,7 @@ def bounded_jobs(exe, itypes, caps, percents, presets, maxlen, per_proc=200, dea
             for pct in percents:
                 for preset in presets:
                     for ch in chunks(ss, per_proc):
-                        jobs.append((exe, ["--mode", "bounded", "--itype", it, "--cap", cap, "--percent", pct, "--preset", preset,
+                        jobs.append((exe, ["--mode", "bounded", "--itype", it, "--cap", cap, "--rawcap", rawcap, "--percent", pct, "--preset", preset,
                                            "--ops-batch", ";".join(ch), "--deadline", deadline], deadline * len(ch) + 60))
     return jobs
 
